@@ -1095,6 +1095,21 @@ def v_as(v):
     return SymReal(v)
 
 
+def fresh_extreme(vals, kind):
+    """min/max of many real terms as ONE fresh variable m with  m <=/>= every term  and
+    m == some term  -- exact, no forking and no ite under a later floor (for long vertex lists)"""
+    c = ctx()
+    if c.concrete or not any(isinstance(v, Sym) for v in vals):
+        return (min if kind == "min" else max)(vals)
+    ts = [_coerce(SymReal(z3.RealVal(0)), v)[1] if not isinstance(v, Sym) else (z3.ToReal(v.t) if _is_int(v.t) else v.t) for v in vals]
+    n = sum(1 for k in c.vars if k.startswith("_ext"))
+    m = z3.Real(f"_ext{n}_{kind}")
+    _register(f"_ext{n}_{kind}", m, "real")
+    c.add(z3.And(*[(m <= t) if kind == "min" else (m >= t) for t in ts]))
+    c.add(z3.Or(*[m == t for t in ts]))
+    return SymReal(m)
+
+
 def Bool(name):
     c = ctx()
     if c.concrete:
